@@ -58,6 +58,7 @@ func init() {
 			{"marshal-cover", "custom MarshalXML methods encode every tagged field", ruleMarshalCover},
 			{"sectpr-last", "Body.MarshalXML collects every non-section element, in order (shape of the collecting loop)", ruleSectPrLast},
 			{"chardata-verbatim", "character data is stored as read (no transformation in the value's slice)", ruleCharDataVerbatim},
+			{"reader-keeps-all", "a list the reader has collected is only replaced by the result of a function that keeps every element of it (no merging or filtering pass over what was read)", ruleReaderKeepsAll},
 			{"marshal-guard", "custom marshalers skip a field only when the field itself is absent (guard predicates cover every field)", ruleMarshalGuard},
 			{"marshal-pure", "serialising does not modify the model", ruleMarshalPure},
 			{"result-fresh", "the bytes returned by ToBytes are backed by memory of that call only (not by a buffer the document keeps and overwrites on the next save)", ruleResultFresh},
@@ -87,6 +88,7 @@ func init() {
 			{"rel-serialise-all", "the relationship parts written on save contain every relationship of the in-memory lists (collects-all analysis of the marshalled slice)", ruleRelSerialiseAll},
 			{"marshal-guard", "run text read from the package is written back whenever it is non-empty (custom marshalers test the field itself, not a trimmed copy)", ruleMarshalGuard},
 			{"reader-input-only", "whether parsed content is kept depends on the element read, not on other state of the document under construction", ruleReaderInputOnly},
+			{"reader-keeps-all", "a list the reader has collected is only replaced by the result of a function that keeps every element of it", ruleReaderKeepsAll},
 			{"marshal-cover (run text)", "the run marshaller writes the run's text as it is held in the model (the encoded value is the field, not a filtered copy of it)", filtered(ruleMarshalCover, "document.Run.")},
 		},
 		Assumptions: commonAssumptions,
@@ -229,6 +231,7 @@ func init() {
 		Rules: []Rule{
 			{"registry-keeps", "nothing is ever removed from the numbering registry (ids in use cannot be enumerated by the library: list paragraphs live in nested tables, content controls, headers)", ruleRegistryKeeps},
 			{"style-id", "emitted style ids ⊆ registry (constant-set inclusion with loop/range expansion)", func(r *Run) { ruleStyleID(r, "") }},
+			{"lookup-guarded", "an id that was looked up in the style registry and not found is not written as a style reference on that path", ruleLookupGuarded},
 			{"part-dep", "regenerated parts depend on registry / replaced part", rulePartDep},
 			{"must-update", "registrations on every path", ruleMustUpdate},
 			{"part-from-registry", "regenerated styles/numbering parts contain every registry entry (unfiltered range loop)", rulePartFromRegistry("stylesXML", "Numbering")},
@@ -267,6 +270,7 @@ func init() {
 			{"registry-key-fresh", "ids under which notes and numbering instances are registered come from a counter of the registry, never from its current size", ruleRegistryKeyFresh},
 			{"save-sibling", "both package producers (Save and ToBytes) run the same part-regenerating calls (notes and numbering parts flushed by only one of them are stale in the other's output)", ruleSaveSibling},
 			{"heading-per-element", "whether a heading becomes a TOC entry depends on that heading and the requested level only (no loop-carried filter in the collecting loops)", ruleHeadingPerElement},
+			{"toc-entry-per-heading", "every iteration of a loop over the collected headings adds its entry to the table of contents", ruleTOCEntryPerHeading},
 			{"clone-cover (registries)", "the per-document note and numbering registries are copied field by field when a document is derived from another", filtered(ruleCloneDocument, "FootnoteManager", "NumberingManager")},
 		},
 		Assumptions: commonAssumptions,
